@@ -1,6 +1,6 @@
 (* Properties/C15.v -- the query path is free of data races (lock-set half).
    The instance for the table regenerated from /repo on every run is Properties/C15_instance.v. *)
-From NX Require Import Bytes Locks LockFacts Resolver LastModFacts.
+From NX Require Import Bytes Locks LockFacts Resolver LastModFacts Rmw RmwFacts.
 From Coq Require Import Permutation.
 Open Scope Z_scope.
 
@@ -27,3 +27,21 @@ Print Assumptions C15_lastmod_monotone.
 Theorem C15_lastmod_covers : forall l url ts t, In t ts -> t <= lastmod (apply_stamps l url ts) url.
 Proof. exact lastmod_covers. Qed.
 Print Assumptions C15_lastmod_covers.
+
+(* ---- no lost update (check-then-act) ---- *)
+(* (A) in every reachable state, while a plain read of x by thread i is in force (made under locks i still
+   holds), no other thread is about to write x *)
+Theorem C15_rmw_exclusive : forall tbl, table_ok tbl = true ->
+  forall ps sched ts i ti x hr,
+  (forall p, In p ps -> In p tbl) -> trun (start ps) sched = Some ts ->
+  nth_error ts i = Some ti -> In (x, hr) (cur_reads (rev (done_rev ti))) ->
+  forall j tj, j <> i -> nth_error ts j = Some tj -> next_access tj <> Some (x, KWrite).
+Proof. exact rmw_exclusive_ok. Qed.
+Print Assumptions C15_rmw_exclusive.
+
+(* (B) on a path that passes the syntactic rule, a plain write of a location the path has read before
+   happens while a read of it is in force *)
+Theorem C15_recheck_meaning : forall p pre x post,
+  recheck p = true -> p = pre ++ Wr x :: post -> In x (reads_of pre) -> in_force x (cur_reads pre) = true.
+Proof. exact recheck_write_in_force. Qed.
+Print Assumptions C15_recheck_meaning.
